@@ -82,6 +82,7 @@ type VC struct {
 	tagTypes  map[string]types.Type
 	inBinder  int
 	paramInvs map[string]string
+	opaque    map[string]bool
 	lenTerms  []string
 }
 
@@ -992,7 +993,7 @@ func (vc *VC) byteHeap(st *State) string {
 
 func (vc *VC) bytesEqual(st *State, a, b *SliceV) string {
 	h := vc.byteHeap(st)
-	i := vc.freshName("q_i")
+	i := "q_beq_i"
 	body := implies(and(le("0", i), lt(i, a.Len)), eq(sel2(h, a.Arr, plus(a.Off, i)), sel2(h, b.Arr, plus(b.Off, i))))
 	return and(eq(a.Len, b.Len), forall([][2]string{{i, "Int"}}, body))
 }
@@ -1032,7 +1033,7 @@ func (vc *VC) specApp(e *Env, sf *SpecFunc, sig *types.Signature, args []TV, rt 
 	foot, ok := vc.specFoot[key]
 	if !ok {
 		vc.footBusy[key] = true
-		if sf.Decl.Body != nil {
+		if sf.Decl.Body != nil && !isGhostStub(sf) {
 			foot = vc.computeFootprint(e, sf, sig, args)
 		}
 		vc.footBusy[key] = false
